@@ -133,10 +133,11 @@ def build_harness(log):
     return rc == 0, out
 
 
-def run_harness(args, out_path, stats_path, log, timeout=3000):
+def run_harness(args, out_path, stats_path, log, timeout=3000, extra_env=None):
     t = time.time()
     cmd = [os.path.join(BUILD, "harness")] + args + ["-out", out_path, "-stats", stats_path]
     env = dict(os.environ, GOMEMLIMIT="6GiB")
+    env.update(extra_env or {})
     rc, out = sh(cmd, env=env, timeout=timeout)
     log(f"harness {' '.join(args)}: rc={rc} ({time.time()-t:.1f}s)")
     return rc, out
